@@ -345,6 +345,21 @@ class Evaluator:
             return ("t", [])
         if k in ("break", "continue"):
             raise Break()
+        if k == "for":
+            # a counted loop over a range with concrete small bounds is unrolled (`for _ in 0..padding { reader.read_u8()?; }`)
+            it = H.peel(n["iter"])
+            if it.get("k") == "struct" and (it.get("adt") or "").startswith("core::ops::range::Range") and not (it.get("adt") or "").endswith("RangeInclusive"):
+                fs = {f["name"]: self.ev(f["e"], env) for f in it.get("fields", [])}
+                lo, hi = fs.get("start"), fs.get("end")
+                if lo is not None and hi is not None and lo[0] == "i" and hi[0] == "i" and 0 <= hi[1] - lo[1] <= 16:
+                    for i in range(lo[1], hi[1]):
+                        e2 = dict(env)
+                        match_pat(n["pat"], ("i", i), e2)
+                        try:
+                            self.ev(n["body"], e2)
+                        except Break:
+                            break
+                    return ("t", [])
         if k in ("for", "loop"):
             self.effects.append(("loopnode", n))
             return sym("<loop>")
